@@ -196,6 +196,38 @@ def extreme_scales(chk, found, c, tol, pid, dts=("f64", "f32")):
     return ok
 
 
+def exact_boundary_cases():
+    """matrices of rank one in their columns (J = v e_j^T), whose largest singular value |v| is an integer and is
+    returned EXACTLY by the SVD, with norm_eps equal to it: the statement's `s >= norm_eps` includes equality.
+    Yields (J, norm_eps, s) with exact Fractions, at three power-of-two scales."""
+    base = [([[3, 0], [-4, 0]], 5), ([[0, 6], [0, -8]], 10), ([[3, 0, 0], [-4, 0, 0]], 5),
+            ([[0, 5, 0], [0, -12, 0]], 13), ([[1, 0], [-2, 0], [2, 0]], 3), ([[8, 0], [-15, 0]], 17)]
+    for J, s in base:
+        for e in (0, -12, 5):
+            sc = F(2) ** e
+            yield [[F(x) * sc for x in r] for r in J], F(s) * sc, F(s) * sc
+
+
+def exact_boundary(chk, found, names, pid, judge):
+    """runs `judge(c, dt, s)` on every exact-boundary case for which the implementation's own SVD returns
+    sigma_max == norm_eps exactly (checked, counted otherwise); s is passed as the exact rational"""
+    import torch
+    n_run = 0
+    for J, ne, s in exact_boundary_cases():
+        for dt in ("f64", "f32"):
+            t = A.to_tensor(J, dt)
+            if float(torch.linalg.svdvals(t)[0]) != float(s) or float(torch.svd(t)[1][0]) != float(s):
+                chk.note("exact_boundary_svd_not_exact")
+                continue
+            for name in names:
+                for pref in (None, [F(1, 4), F(3, 4), F(1, 2)][:len(J)]):
+                    p = {"pref": pref, "norm_eps": ne, "reg_eps": F(1, 10 ** 4)}
+                    c = {"name": name, "params": p, "J": J, "cat": "exact_boundary_s_eq_norm_eps"}
+                    judge(c, dt, s)
+                    n_run += 1
+    chk.notes["exact_boundary_cases"] = n_run
+
+
 def dtypes_for(c):
     """float32 is used only where reg_eps dominates the float32 rounding error of the normalised
     Gramian (reg_eps's documented purpose is to keep the QP matrix positive definite in spite of
